@@ -118,3 +118,141 @@ Example C12_nonvacuous :
     = [[(1, 0)]; [(1, 0)]; [(1, 1)]; [(1, 1)]; [(1, 0)]] /\
   c12_ok [(1, 0)] ex_reqs (run_case true ex_env [C12Ex.p_a] [C12Ex.p_a] (init_sess false []) ex_reqs) = true.
 Proof. exact example_run. Qed.
+
+(* ================================================================ WSP (service/wsp)
+   The same property for RTSP requests wrapped in the WSP proxy protocol: a websocket control
+   channel (INIT, then one WRAP message per RTSP request) and a data channel that JOINs it.
+   [wstep] is the model of Server.handshakeControlChannel / Session.process / Session.onRequest /
+   Server.handshakeDataChannel (Model/C12Wsp.v, repaired behaviour); proofs in Proofs/C12WspProofs.v.
+   WSP's method table: PAUSE is legal while playing, there is no record side. *)
+From V Require Import C12Wsp C12WspProofs.
+
+(* exactly one response per request: every message the protocol answers (INIT on a fresh channel,
+   WRAP / SWITCH on an established one, JOIN on a data channel) gets exactly one WSP response with
+   the seq echoed; for a WRAP it is WSP 200 carrying one RTSP response with the CSeq echoed and
+   the session id *)
+Theorem C12_wsp_one_response_per_request : forall e s rq s' rs fs,
+  w_closed s = false -> wanswerable s (rq_cmd rq) = true ->
+  wstep e s rq = (s', rs, fs) ->
+  exists r, rs = [r] /\ wp_seq r = rq_seq rq /\
+    match rq_cmd rq with
+    | CWrap q => wp_code r = 200 /\
+                 exists rr, wp_rtsp r = Some rr /\ rs_cseq rr = wq_cseq q /\ rs_sess rr = true
+    | _ => wp_rtsp r = None
+    end.
+Proof. exact wone_response_per_request. Qed.
+Print Assumptions C12_wsp_one_response_per_request.
+
+(* a method that is not legal in the current state is refused — WSP uses 455 as well — and changes nothing *)
+Theorem C12_wsp_illegal_is_refused_noop : forall e s rq q,
+  w_closed s = false -> w_inited s = true -> rq_cmd rq = CWrap q ->
+  wlegal (w_status s) (wq_meth q) = false ->
+  wstep e s rq = (s, [wanswer 200 rq (Some (wresp 455 q))], []).
+Proof. exact willegal_is_refused_noop. Qed.
+Print Assumptions C12_wsp_illegal_is_refused_noop.
+
+(* ... which the status table before the fix violated: PAUSE before SETUP was answered 200 *)
+Theorem C12_wsp_pause_in_init_refuted : exists e s rq q,
+  w_closed s = false /\ w_inited s = true /\ rq_cmd rq = CWrap q /\
+  wlegal (w_status s) (wq_meth q) = false /\
+  snd (fst (wstep_orig e s rq)) = [wanswer 200 rq (Some (wresp 200 q))].
+Proof. exact wpause_in_init_refuted. Qed.
+Print Assumptions C12_wsp_pause_in_init_refuted.
+
+(* playing is reached only through DESCRIBE, SETUP, PLAY (each answered 2xx, in this order) —
+   for every message sequence on a fresh channel, in every environment *)
+Theorem C12_wsp_playing_only_via_describe_setup_play : forall e watch ext path rqs os s',
+  wrun_gen true e watch ext (winit_sess path) rqs = (os, s') ->
+  w_status s' = WPlaying -> wsubseq [WmDescribe; WmSetup; WmPlay] (wevents rqs os).
+Proof. exact wplaying_only_via_describe_setup_play. Qed.
+Print Assumptions C12_wsp_playing_only_via_describe_setup_play.
+
+(* no media before a successful PLAY: a consumer is attached only by a PLAY answered 200 in state
+   ready, nothing is ever published, release / close happen only when the channel ends; and after
+   any message sequence media flows to the client ([wflows]: playing, not paused, data channel
+   joined) only if DESCRIBE, SETUP, PLAY were answered 2xx in this order *)
+Theorem C12_wsp_no_media_before_play :
+  (forall e s rq s' rs fs f,
+     w_closed s = false -> wstep e s rq = (s', rs, fs) -> In f fs ->
+     match f with
+     | EAttach p => exists q, rq_cmd rq = CWrap q /\ wq_meth q = WmPlay /\
+                    rs = [wanswer 200 rq (Some (wresp 200 q))] /\ w_inited s = true /\
+                    w_status s = WReady /\ w_status s' = WPlaying /\ w_held s' = HCons p
+     | ERegister _ => False
+     | ERelease h => h = w_held s /\ w_inited s = true /\ wends s (rq_cmd rq) = true /\ w_closed s' = true
+     | EClose => wends s (rq_cmd rq) = true /\ w_closed s' = true
+     end) /\
+  (forall e watch ext path rqs os s',
+     wrun_gen true e watch ext (winit_sess path) rqs = (os, s') ->
+     wflows s' = true -> wsubseq [WmDescribe; WmSetup; WmPlay] (wevents rqs os)).
+Proof. exact (conj weffects_only_on_success wmedia_only_after_play). Qed.
+Print Assumptions C12_wsp_no_media_before_play.
+
+(* TEARDOWN and disconnect release whatever the session held; in every reachable state a consumer
+   is held only by an established, open, playing session *)
+Theorem C12_wsp_teardown_or_disconnect_releases : forall e s rq q,
+  w_closed s = false -> w_inited s = true ->
+  (rq_cmd rq = CWrap q -> wq_meth q = WmTeardown ->
+     wstep e s rq = (wclosed_of s, [wanswer 200 rq (Some (wresp 200 q))], [ERelease (w_held s); EClose])) /\
+  wdisconnect s = (wclosed_of s, [ERelease (w_held s); EClose]) /\
+  (forall ext w, w_closed (wclosed_of s) = true /\ w_held (wclosed_of s) = HNone /\
+                 wflows (wclosed_of s) = false /\
+                 reg_no_self (registry ext (w_held (wclosed_of s)) w) = true).
+Proof. exact wteardown_or_disconnect_releases. Qed.
+Print Assumptions C12_wsp_teardown_or_disconnect_releases.
+
+Theorem C12_wsp_holds_only_while_playing : forall e watch ext path rqs os s',
+  wrun_gen true e watch ext (winit_sess path) rqs = (os, s') ->
+  (forall p, w_held s' = HCons p -> w_closed s' = false /\ w_inited s' = true /\ w_status s' = WPlaying) /\
+  (forall p, w_held s' <> HPub p) /\
+  (w_inited s' = false -> w_held s' = HNone /\ w_status s' = WInit) /\
+  (w_closed s' = true -> w_held s' = HNone /\ w_status s' = WInit).
+Proof. exact wholds_only_while_playing. Qed.
+Print Assumptions C12_wsp_holds_only_while_playing.
+
+(* after any refused request the channel is usable: still open, same status, holdings, pause state
+   and data channel, no effect, and the next message is answered exactly once *)
+Theorem C12_wsp_usable_after_refusal : forall e s rq q s' c fs,
+  w_closed s = false -> w_inited s = true -> rq_cmd rq = CWrap q ->
+  wstep e s rq = (s', [wanswer 200 rq (Some (wresp c q))], fs) -> is_2xx c = false ->
+  w_closed s' = false /\ w_inited s' = true /\ w_status s' = w_status s /\ w_held s' = w_held s /\
+  w_paused s' = w_paused s /\ w_joined s' = w_joined s /\ fs = [] /\
+  forall rq2, wanswerable s' (rq_cmd rq2) = true ->
+    exists r, snd (fst (wstep e s' rq2)) = [r] /\ wp_seq r = rq_seq rq2 /\
+      match rq_cmd rq2 with
+      | CWrap q2 => wp_code r = 200 /\
+                    exists rr, wp_rtsp r = Some rr /\ rs_cseq rr = wq_cseq q2 /\ rs_sess rr = true
+      | _ => wp_rtsp r = None
+      end.
+Proof. exact wusable_after_refusal. Qed.
+Print Assumptions C12_wsp_usable_after_refusal.
+
+(* the decidable oracle (specification monitor c12w_ok: client-visible observations only) that is
+   applied to the implementation accepts the model on every message sequence — any mix of INIT,
+   GET_INFO, SWITCH, WRAP, JOIN on the control or a data channel — in every environment,
+   followed by the disconnect *)
+Theorem C12_wsp_model_passes : forall e watch ext path rqs,
+  c12w_ok (registry ext HNone watch) rqs (wrun_case true e watch ext (winit_sess path) rqs) = true.
+Proof. exact wmodel_passes. Qed.
+Print Assumptions C12_wsp_model_passes.
+
+(* the status table before the fix does not pass the oracle; the repaired one does *)
+Theorem C12_wsp_orig_fails_oracle :
+  c12w_ok [(1, 0)] wex_reqs_bad
+    (wrun_case false wex_env [C12WEx.p_a] [C12WEx.p_a] (winit_sess C12WEx.p_a) wex_reqs_bad) = false /\
+  c12w_ok [(1, 0)] wex_reqs_bad
+    (wrun_case true wex_env [C12WEx.p_a] [C12WEx.p_a] (winit_sess C12WEx.p_a) wex_reqs_bad) = true.
+Proof. exact worig_fails_oracle. Qed.
+Print Assumptions C12_wsp_orig_fails_oracle.
+
+(* non-vacuity: INIT, JOIN, DESCRIBE, SETUP, PLAY, PAUSE, PLAY, TEARDOWN — every message answered
+   200, a consumer attached from PLAY to TEARDOWN, media flowing except while paused *)
+Example C12_wsp_nonvacuous :
+  map wcodes (fst (wrun_case true wex_env [C12WEx.p_a] [C12WEx.p_a] (winit_sess C12WEx.p_a) wex_reqs))
+    = [[(200, 0)]; [(200, 0)]; [(200, 200)]; [(200, 200)]; [(200, 200)]; [(200, 200)]; [(200, 200)]; [(200, 200)]] /\
+  map wo_reg (fst (wrun_case true wex_env [C12WEx.p_a] [C12WEx.p_a] (winit_sess C12WEx.p_a) wex_reqs))
+    = [[(1, 0)]; [(1, 0)]; [(1, 0)]; [(1, 0)]; [(1, 1)]; [(1, 1)]; [(1, 1)]; [(1, 0)]] /\
+  map wo_media (fst (wrun_case true wex_env [C12WEx.p_a] [C12WEx.p_a] (winit_sess C12WEx.p_a) wex_reqs))
+    = [false; false; false; false; true; false; true; false] /\
+  c12w_ok [(1, 0)] wex_reqs (wrun_case true wex_env [C12WEx.p_a] [C12WEx.p_a] (winit_sess C12WEx.p_a) wex_reqs) = true.
+Proof. exact wexample_run. Qed.
